@@ -481,6 +481,17 @@ def run(ctx: lib.Ctx) -> None:
             if not ok or not ok2 or not (back == obj) or ('packed' in w and obj.pack().hex() != w['packed']):
                 viols.append((f'regression of fixed defect: {f.get("what")}', {'witness': w}))
 
+    # ---- witnesses of the known findings: reported while the defect is present
+    for f in ctx.known.get('findings', []):
+        w = f.get('witness') or {}
+        if 'type' in w and 'value' in w:
+            okw, Tw = lib.call(match_type, w['type'])
+            okv, objw = lib.call(Tw.from_micheline_value, copy.deepcopy(w['value'])) if okw else (False, None)
+            okp, pw = lib.call(objw.pack) if okv else (False, None)
+            ctx.case(('finding', json.dumps(w)), kind='known-finding-witness')
+            if okp and pw.hex() == w.get('packed_by_pytezos'):
+                ctx.known_hit(f)
+
     # ---- corpus of past / hand-picked byte strings
     import glob
     import os
@@ -512,7 +523,7 @@ def run(ctx: lib.Ctx) -> None:
         un_meta.append({'type': tj, 'not_packable': True})
 
     # ---- generated values
-    nvals = ctx.n(260, 2000)
+    nvals = ctx.n(220, 2000)
     for it in range(nvals):
         depth = rng.choice([1, 2, 2, 3, 3, 4])
         while True:
@@ -560,7 +571,7 @@ def run(ctx: lib.Ctx) -> None:
             viols.append(('UNPACK of PACK does not return the value', dict(meta, packed=packed.hex(),
                           repro=f"T=MichelsonType.match({json.dumps(tj)}); v=T.from_micheline_value({json.dumps(rj)}); T.unpack(v.pack()) == v")))
         # instructions
-        interp = rng.random() < 0.35
+        interp = rng.random() < 0.3
         if interp:
             st_, ib = interp_pack(tj, rj)
             ctx.dist[f'interp:PACK:{st_}'] += 1
@@ -587,7 +598,7 @@ def run(ctx: lib.Ctx) -> None:
 
     def one(job):
         name, fn, eqb, ity, oty, cases, meta = job
-        return [(name, fn, cases[i], meta[i]) for i in ctx.coq_mismatches(name, G.COQ_IMPORTS, fn, eqb, ity, oty, cases, shard=200)]
+        return [(name, fn, cases[i], meta[i]) for i in ctx.coq_mismatches(name, G.COQ_IMPORTS, fn, eqb, ity, oty, cases, shard=150)]
 
     with concurrent.futures.ThreadPoolExecutor(max_workers=2) as ex:
         for res in ex.map(one, jobs):
